@@ -5,6 +5,7 @@ NV1 == {<<1>>}
 W(k, d, v) == [k |-> k, del |-> d, v |-> v]
 Singles(K, V) == {<<W(k, FALSE, v)>> : k \in K, v \in V} \cup {<<W(k, TRUE, <<>>)>> : k \in K}
 WSsmall == {<<>>} \cup Singles(NK2, NV1) \cup {<<W(<<97>>, TRUE, <<>>), W(<<97, 98>>, FALSE, <<1>>)>>}
+TrueConst == TRUE
 TBoth == {"state", "io"}
 TState == {"state"}
 BothBackends == {"badger", "pathbadger"}
